@@ -83,6 +83,14 @@ def oracle_dev(c):
     after = bytes.fromhex(c["after"])
     if c["res"] in ("PANIC", "HANG"):
         return "dev-" + c["res"].lower(), "%s: %s" % (op, c["res"])
+    if op[0] == "alias":
+        # the alias the SubDevice reports is the new one exactly when the call succeeded (model:
+        # set_alias_address, theorem c14_reported_alias); the SubDevice starts out reporting 0
+        a = op[1]
+        want = a if c["res"] == "Ok" else 0
+        if c.get("alias_reported") is not None and c["alias_reported"] != want:
+            return "dev-alias-reported", "set_alias_address(%d) ended with %s %s and alias_address() now reports %d (EEPROM alias word %d)" % (
+                a, c["res"], c.get("err", ""), c["alias_reported"], after[8] | after[9] << 8)
     if c["stay_busy"]:
         # a device that refuses the write command more often than the retry bound (20) never
         # becomes busy with a write at all: write_word gives up and returns Ok (observation in
